@@ -13,6 +13,7 @@
 #include <AIToolbox/Factored/Utils/Trie.hpp>
 #include <AIToolbox/Factored/Utils/FasterTrie.hpp>
 #include <AIToolbox/Factored/Utils/FilterMap.hpp>
+#include <AIToolbox/Factored/Utils/Core.hpp>
 #include <AIToolbox/Seeder.hpp>
 #include <algorithm>
 #include <set>
@@ -631,6 +632,20 @@ static void sort_case(Rng & rng) {
     std::printf("#stat sort_%s_len_%s 1\n", ties ? "ties" : "distinct", ids.size() < 2 ? "0_1" : ids.size() < 5 ? "2_4" : "5plus");
 }
 
+// the library's own `match` (Core.cpp): the notion of "compatible" the callers of the indexes use.  `C20 mat <a> <b> <f> | …`
+static void match_case(Rng & rng) {
+    F::Factors sp((size_t)rng.range(2, 7));
+    for (auto & d : sp) d = (size_t)rng.range(1, 3);
+    PF a = randomPF(rng, sp, true), b = rng.coin(1, 4) ? a : randomPF(rng, sp, true);
+    if (!b.first.empty() && rng.coin(1, 4)) b.second[rng.below(b.second.size())] = rng.below(3);   // near miss
+    F::Factors f(sp.size());
+    for (size_t i = 0; i < sp.size(); ++i) f[i] = rng.below(sp[i]);
+    Line l; l << "C20" << "mat"; pfTok(l, a); pfTok(l, b); l.nats(f); l << "|";
+    l << F::match(a, b) << F::match(b, a) << F::match(f, a) << F::match(f, b); l.emit();
+    std::printf("#stat match_%s 1\n", F::match(a, b) ? "compatible" : "conflict");
+    std::printf("#stat match_sizes_%s 1\n", a.first.size() == b.first.size() ? "equal" : a.first.size() > b.first.size() ? "first_longer" : "second_longer");
+}
+
 static void ctor_case() {
     for (const F::Factors & sp : {F::Factors{}, F::Factors{3}, F::Factors{2, 2}}) {
         std::string out = "ok";
@@ -684,7 +699,7 @@ static void fmc_fixed() {
 }
 
 static int g_perShape = 0, g_random = 0;
-static const int kFixed = 2;   // case 0: probes + ctor, case 1: fixed histories
+static const int kFixed = 22;   // case 0: probes + ctor, case 1: fixed histories, cases 2..21: auxiliary streams (5 streams x 4)
 
 long verif::verif_ncases(const std::string & tier) {
     if (tier == "thorough") build_spaces(2, 4, 4); else build_spaces(2, 3, 3);
@@ -702,17 +717,20 @@ void verif::verif_case(Rng & rng, long idx, const std::string & tier) {
         ctor_case();
         return;
     }
-    if (idx == 1) {
-        fixed_cases();
-        fmc_fixed();
-        const int rep = tier == "thorough" ? 200 : 40;
-        for (int i = 0; i < rep; ++i) indexmap_case(rng);
-        for (int i = 0; i < 2 * rep; ++i) skipmap_case(rng);
-        for (int i = 0; i < 2 * rep; ++i) sort_case(rng);
-        for (int i = 0; i < 2 * rep; ++i) {
-            F::Factors sp((size_t)rng.range(2, 5));
-            for (auto & d : sp) d = (size_t)rng.range(1, 4);
-            if (rng.coin()) fmc_case<F::Trie>(rng, sp, "trie"); else fmc_case<F::FasterTrie>(rng, sp, "ftrie");
+    if (idx == 1) { fixed_cases(); fmc_fixed(); return; }
+    if (idx < kFixed) {
+        // auxiliary streams, each in cases of its own (a crash in one stream does not hide the others): 4 cases per stream
+        const int rep = tier == "thorough" ? 100 : 20;
+        const long stream = (idx - 2) / 4;
+        for (int i = 0; i < rep; ++i) {
+            if (stream == 0) indexmap_case(rng);
+            else if (stream == 1) skipmap_case(rng);
+            else if (stream == 2) sort_case(rng);
+            else if (stream == 3) {
+                F::Factors sp((size_t)rng.range(2, 5));
+                for (auto & d : sp) d = (size_t)rng.range(1, 4);
+                if (rng.coin()) fmc_case<F::Trie>(rng, sp, "trie"); else fmc_case<F::FasterTrie>(rng, sp, "ftrie");
+            } else match_case(rng);
         }
         return;
     }
